@@ -165,8 +165,8 @@ def check (inp out : List String) : Verdict :=
       { agree := agree, model := mshow,
         specFail := failing [
           ("no_panic", res != "PANIC"),
-          ("reads_exactly", consumed == 0 || consumed == size),
-          ("size_gates", consumed == 0 || (decide (1 ≤ size) && decide (size ≤ 1024) && (match k.msgSize with | some n => size == n | none => true))),
+          ("never_reads_past_payload", decide (consumed ≤ size)),
+          ("size_gates", !(res.startsWith "ok:") || (consumed == size && decide (1 ≤ size) && decide (size ≤ 1024) && (match k.msgSize with | some n => size == n | none => true))),
           ("value_or_error", res == "err" || res == "PANIC" || implOk.isSome) ] }
     | _, _, _, _ => .bad "dec tokens"
   | _, _ => .bad "C13 arity"
